@@ -40,7 +40,7 @@ void superlu_free(void *p) { g_n_free++; free(p); }
 
 #define ORDER in_A.nrow
 /* overwrite p[0..ORDER) with arbitrary values (ORDER <= CAP <= 4; element-wise: cheaper for the solver than a byte-wise havoc) */
-#define HAVOC(p, nd) do { if (ORDER > 0) (p)[0] = nd(); if (ORDER > 1) (p)[1] = nd(); if (ORDER > 2) (p)[2] = nd(); if (ORDER > 3) (p)[3] = nd(); } while (0)
+#define HAVOC(p, nd) { if (ORDER > 0) (p)[0] = nd(); if (ORDER > 1) (p)[1] = nd(); if (ORDER > 2) (p)[2] = nd(); if (ORDER > 3) (p)[3] = nd(); }
 @T@ nondet_val(void);
 #define TRANST (in_trans == NOTRANS ? TRANS : NOTRANS)
 
